@@ -24,6 +24,9 @@ fn main() {
             s.require("two-byte-separator", 5000);
             s.require("truncated-record-present", 3000);
             s.gen("histories", s.n(400_000, 12_000_000), || gen::hist(Focus::Faults), |h, cx| gen::check(h, Prop::C10, cx));
+            // end to end through the real FileSet (formatting on the caller's thread, real channel and worker
+            // thread): every record is exactly one formatted event, flush true => synced
+            s.gen("file-e2e", s.n(3_000, 100_000), fsim::e2e::flush_case, |c, cx| fsim::e2e::check_flush(c, cx));
             let bases = s.sample("single-fault-bases", gen::hist(Focus::Faults), s.n(400, 12_000) as usize);
             s.enumerate("single-fault-exhaustive", bases.into_iter().flat_map(gen::single_fault_placements), |h, cx| gen::check(h, Prop::C10, cx));
         },
